@@ -4,12 +4,13 @@ from bip_utils.addr import *  # noqa
 from harness.canon import hx, tx, unhx, untx
 from bip_utils import (Secp256k1PrivateKey, Nist256p1PrivateKey, Ed25519PrivateKey, Ed25519Blake2bPrivateKey,
                        Ed25519MoneroPrivateKey, Secp256k1PublicKey, Nist256p1PublicKey, Ed25519PublicKey,
-                       Ed25519Blake2bPublicKey, Ed25519MoneroPublicKey, Base58Alphabets, P2PKHPubKeyModes)
+                       Ed25519Blake2bPublicKey, Ed25519MoneroPublicKey, Base58Alphabets, P2PKHPubKeyModes,
+                       Ed25519KholawPrivateKey, Ed25519KholawPublicKey)
 
 PRIV = {"secp256k1": Secp256k1PrivateKey, "nist256p1": Nist256p1PrivateKey, "ed25519": Ed25519PrivateKey,
-        "ed25519blake2b": Ed25519Blake2bPrivateKey, "ed25519monero": Ed25519MoneroPrivateKey}
+        "ed25519blake2b": Ed25519Blake2bPrivateKey, "ed25519monero": Ed25519MoneroPrivateKey, "ed25519kholaw": Ed25519KholawPrivateKey}
 PUB = {"secp256k1": Secp256k1PublicKey, "nist256p1": Nist256p1PublicKey, "ed25519": Ed25519PublicKey,
-       "ed25519blake2b": Ed25519Blake2bPublicKey, "ed25519monero": Ed25519MoneroPublicKey}
+       "ed25519blake2b": Ed25519Blake2bPublicKey, "ed25519monero": Ed25519MoneroPublicKey, "ed25519kholaw": Ed25519KholawPublicKey}
 ORDERS = {"secp256k1": 0xFFFFFFFFFFFFFFFFFFFFFFFFFFFFFFFEBAAEDCE6AF48A03BBFD25E8CD0364141,
           "nist256p1": 0xFFFFFFFF00000000FFFFFFFFFFFFFFFFBCE6FAADA7179E84F3B9CAC2FC632551,
           "ed25519monero": 2**252 + 27742317777372353535851937790883648493}
